@@ -76,6 +76,8 @@ func genArgs(cmd, opt string) []string {
 		a = append(a, "--skip-support")
 	case "exclude_main":
 		a = append(a, "--exclude-main")
+	case "stratoscale":
+		a = append(a, "--template", "stratoscale")
 	case "exclude_main_pkg":
 		a = append(a, "--exclude-main", "--main-package", "my-server")
 	case "impl_package":
@@ -230,7 +232,7 @@ func (b *regenBehaviour) run(hist []any) {
 			rc, errOut := b.runGen(live, cmd, opt)
 			after, conf := b.snapshot(live)
 			b.events = append(b.events, obj{"ev": "Gen", "b": b.id, "step": step, "cmd": cmd, "opt": opt,
-				"regen": opt == "regen_configure", "spec": b.specKey(),
+				"regen": opt == "regen_configure" || opt == "stratoscale", "spec": b.specKey(),
 				"exit": rc, "freshExit": frc, "err": errOut, "fresh": b.idmap(fresh), "after": after, "conf": conf})
 		case "user_add":
 			rel := userFiles[a["u"].(string)]
